@@ -301,9 +301,9 @@ def iteration_space(eng, it, st, node):
     if isinstance(it, Vec):
         return it.n, (lambda kk, s: it.fn(kk))
     if isinstance(it, Ref) and it.kind == "list":
-        cell = st.heap[it.base]
-        n0, items0 = cell["n"], cell["items"]
-        return n0, (lambda kk, s: eng.from_sort(z3.Select(items0, kk)))
+        cell = dict(st.heap[it.base])
+        n0 = cell["n"]
+        return n0, (lambda kk, s: eng.list_elem(cell, kk))
     raise Unsupported(f"iteration over {type(it).__name__}")
 
 
